@@ -260,7 +260,7 @@ class StopFamily(common.Family):
     got = [[] for _ in range(C)]
     ends = [None] * C
     prod = [None] * P
-    info = {}
+    info = {'rq': rq}
 
     def gen(p):
       for i in range(cfg['items'][p]):
@@ -327,7 +327,9 @@ class StopFamily(common.Family):
       t.join()
     if pool is not None:
       pool.shutdown(wait=True)
-    return {'got': got, 'ends': ends, 'prod': prod, 'info': info}
+    info.pop('rq')
+    return {'got': got, 'ends': ends, 'prod': prod, 'info': info,
+            'puts': rq.puts, 'gets': rq.gets}
 
   def check(self, cfg, out):
     dl = common.deadlock_violation(out)
@@ -344,7 +346,12 @@ class StopFamily(common.Family):
     if info.get('stopper') != 'ok':
       res.append(v('stop', 'stopper-raised', f"{info.get('stopper')}"))
     allgot = [tuple(x) for g in obs['got'] for x in g]
-    complete = common.multiset(allgot) == common.multiset(c04.expected_items(cfg))
+    # A consumer can only see the normal end of the stream if every producer
+    # finished before the stop took effect, i.e. every item was enqueued.  (It
+    # does not imply that every item was *delivered*: another consumer may
+    # still hold a partial batch, which a later maybe_stop(exc) makes it drop.)
+    complete = (common.multiset(tuple(x) for x in obs['puts'])
+                == common.multiset(c04.expected_items(cfg)))
     for c, end in enumerate(obs['ends']):
       mode = cfg['modes'][c]
       if end is None:
@@ -358,7 +365,7 @@ class StopFamily(common.Family):
         if end != want and not (end[0] == 'stop' and complete):
           res.append(v('stop', f'consumer-outcome:{mode}:{end[0]}',
                        f'consumer {c} saw {end}, expected {want} '
-                       f'(stream complete={complete})'))
+                       f'(every item enqueued={complete})'))
       elif end[0] != 'stop':
         res.append(v('stop', f'consumer-outcome:{mode}:{end[1]}',
                      f'consumer {c} saw {end} after a plain stop'))
